@@ -498,6 +498,26 @@ macro_rules! make_field {
             }
         }
 
+        // Verification hook (feature `prio_verif`): lets a harness start from an arbitrary *valid*
+        // internal representative instead of paying for a Montgomery conversion per element.
+        #[cfg(feature = "prio_verif")]
+        #[allow(dead_code)]
+        impl $elem {
+            /// Wraps an internal (Montgomery-domain) representative; `None` unless `raw < p`.
+            pub(crate) fn verif_from_raw(raw: $int_internal) -> Option<Self> {
+                if raw < $fp::PRIME {
+                    Some(Self(raw))
+                } else {
+                    None
+                }
+            }
+
+            /// Returns the internal (Montgomery-domain) representative.
+            pub(crate) fn verif_raw(&self) -> $int_internal {
+                self.0
+            }
+        }
+
         impl PartialEq for $elem {
             fn eq(&self, rhs: &Self) -> bool {
                 // The fields included in this comparison MUST match the fields
